@@ -139,6 +139,7 @@ func runC09(c *Ctx, r *Report) {
 	defer c09r11(c, r)
 	defer c09r12(c, r)
 	defer c09r13(c, r)
+	defer c09r14(c, r)
 	defer c14r13(c, r) // cursor arithmetic modulo the list length is guarded against the empty list
 	defer c07r6(c, r) // an action list stops at the action that ends the session
 
